@@ -29,7 +29,8 @@ RULE = (
     "fault plan = {probe id -> (exception class, trigger)} with probe ids taken from a fault-free pass of the same "
     "(program, history): all single faults x 6 exception classes x 3 triggers for directed programs, sampled singles "
     "and pairs for random programs; history on one long-lived instance mixes failing and succeeding evaluations and "
-    "re-supplies missing options.  distinct = sha1(program, plan, history); non-trivial = the injected exception was "
+    "re-supplies missing options; family failed-then-same-object: long-lived cached nodes / datasets whose body "
+    "raises for some values, ONE dictionary object edited in place between calls, fresh equal dictionaries mixed in.  distinct = sha1(program, plan, history); non-trivial = the injected exception was "
     "actually raised and the evaluation at the boundary failed or a fall-back absorbed it."
 )
 ASSUMPTIONS = ["exception classes: ValueError, KeyError, ZeroDivisionError, TypeError, RuntimeError, AttributeError, OSError, custom Exception, a foreign EvaluationError, CacheGetFailure, KeyNotFoundError"]
